@@ -5,6 +5,7 @@ import (
 	"fmt"
 	"strings"
 	"time"
+	"verif/mcbor"
 
 	psatoken "github.com/veraison/psatoken"
 	"verif/engine/bfs"
@@ -378,12 +379,14 @@ func init() {
 			ops := setterAlphabet(true)
 			full := c02Claims()[map[int]int{1: 2, 2: 3}[p]]
 			return func(c *choice.Ctx) {
-				populated := c.Choose("start", 2) == 1
+				start := c.Choose("start", 5)
+				populated := start
 				oi := c.Choose("op", len(ops))
 				var cl psatoken.IClaims
 				var a *refmodel.Claims
 				var err error
-				if populated {
+				switch start {
+				case 1: // every claim set through the setters
 					cp := *full
 					a = &cp
 					if p == 1 {
@@ -391,16 +394,40 @@ func init() {
 						a.CertRef, a.VSI = sp(ean13), sp("v")
 					}
 					cl, err = buildBySetters(a)
-				} else {
+				case 0:
 					a = freshModel(p)
 					cl, err = psatoken.NewClaims(canonOf(p))
+				case 2, 3: // decoded from a token (profile 1: the no-measurements token; profile 2: the full one)
+					cp := *c02Claims()[map[int]int{1: 1, 2: 3}[p]]
+					a = &cp
+					if start == 2 {
+						cl, err = psatoken.DecodeClaimsFromCBOR(mcbor.Encode(wireTree(a, true)))
+					} else {
+						cl, err = psatoken.DecodeClaimsFromJSON(wireJSON(a))
+					}
+				case 4: // a struct literal: canonical profile and profile claim only, no component container
+					a = freshModel(p)
+					a.CompsNil = true
+					cl, err = realise(a)
 				}
 				if err != nil {
 					panic(choice.HarnessError{Msg: err.Error()})
 				}
+				if g, w := getterVector(cl), partialVector(a); g != w {
+					return // the start state itself is not what the model says: other checks' business
+				}
 				c11stats.StateStr(fmt.Sprint(populated) + ops[oi].name)
 				c11stats.Trans.Add(1)
 				applySetter(p, cl, a, ops[oi], func(sig, format string, args ...any) { c.Failf(sig, format, args...) })
+				if len(c.Fails) == 0 && len(a.Check()) == 0 {
+					if verr := cl.Validate(); verr != nil {
+						c.Failf(fmt.Sprintf("C11:complete-but-invalid:P%d:start-%d:%s", p, start, ops[oi].name), "every mandatory claim is set, the last setter succeeded, but Validate() fails: %v", verr)
+					} else if canon, cerr := canonicalBuild(a); cerr == nil {
+						if e1, e2 := encObs(cl), encObs(canon); e1 != e2 {
+							c.Failf(fmt.Sprintf("C11:order-dependence:P%d:start-%d:%s", p, start, ops[oi].name), "encoding differs from setting the same values once on a fresh instance\n this:      %s\n canonical: %s", e1, e2)
+						}
+					}
+				}
 				c11stats.Outcome(map[bool]string{true: "accepts", false: "rejects"}[ops[oi].accept(p)])
 			}, nil
 		}
